@@ -323,8 +323,50 @@ def _pre_tables(ctx, prog, R):
     ctx.floor("triage-precondition", "PieceMgr::new call sites", len(lens), 3)
 
 
+def _stored_back(fn, st):
+    """`v = v + C` (possibly through the overflow-checked pair temp): the sum is assigned to the variable it was computed from"""
+    v = st["rhs"]["a"]["pl"]["l"]
+    t = st["lhs"]["l"]
+    if t == v and not st["lhs"]["p"]:
+        return True
+    for blk in fn.blocks:
+        for s2 in blk["stmts"]:
+            if s2["s"] == "assign" and s2["lhs"]["l"] == v and not s2["lhs"]["p"] and s2["rhs"]["rv"] == "use" \
+                    and s2["rhs"]["a"].get("k") in ("cp", "mv") and s2["rhs"]["a"]["pl"]["l"] == t:
+                return True
+    return False
+
+
+def in_cycle_blocks(fn, b):
+    return b in fn.reachable_ok(fn.normal_succs(b))
+
+
 def _pre_scan(ctx, prog, R):
     scan = R.need("SCAN")
+    # (a) inside the scanner: the loop that advances the index by 8 per bitmap byte runs under `idx < buckets_size` -
+    # together with (b) this makes it execute at least once, so that the `idx - 8` behind it cannot underflow
+    from .model import const_val
+    cn_s = k7.Canon(prog, scan)
+    incs = []
+    for b, blk in enumerate(scan.blocks):
+        if blk["cleanup"] or not in_cycle_blocks(scan, b):
+            continue
+        for st in blk["stmts"]:
+            if st["s"] == "assign" and st["rhs"]["rv"] == "bin" and st["rhs"]["op"] in ("Add", "AddWithOverflow") and const_val(st["rhs"]["b"]) == 8 \
+                    and st["rhs"]["a"].get("k") in ("cp", "mv") and not st["rhs"]["a"]["pl"]["p"] and _stored_back(scan, st):
+                incs.append((b, st))
+    ok_loop = bool(incs)
+    facts = k7.lt_facts(prog, scan)
+    for ib, st in incs:
+        v = cn_s.op(st["rhs"]["a"], ib)
+        good = False
+        for (sb, tgt, X, Y) in facts:
+            if Y[0] == "p" and Y[1] == 2 and not Y[2] and k7.same(X, v) and scan.dominates(tgt, ib) and sb in scan.reachable_ok(scan.normal_succs(ib)):
+                good = True
+        ok_loop = ok_loop and good
+    ctx.check(ok_loop, "triage-precondition", "scan-byte-loop-guard",
+              "the bitmap byte loop of the bucket scanner (index += 8 per byte) is not guarded by `idx < buckets_size`: for small tables it may not run at all "
+              "and the `idx - 8` behind it underflows", where=where(scan, incs[0][0]) if incs else where(scan))
     sites = prog.callers().get(scan.id, [])
     ctx.floor("triage-precondition", "call sites of the bucket scanner", len(sites), 2)
     for caller, b in sites:
